@@ -60,6 +60,9 @@ fn main() {
         "C05" => engine::run(&props::c05::C05, &opts),
         "C06" => engine::run(&props::c06::C06, &opts),
         "C08" => engine::run(&props::c08::C08, &opts),
+        "C09" => engine::run(&props::c09::C09, &opts),
+        "C10" => engine::run(&props::c10::C10, &opts),
+        "C12" => engine::run(&props::c12::C12, &opts),
         _ => {
             eprintln!("unknown property {}", id);
             2
